@@ -88,3 +88,13 @@ Example C01_concrete :
   | _ => False
   end.
 Proof. vm_compute. split; reflexivity. Qed.
+
+(* ---- ... for every ballot file the reader accepts (see Props/C02.v for the reading of parse_file / to_count_profile):
+   candidate ids are distinct by the reader's theorem, so the only hypothesis left is the fuel bound ---- *)
+From Droop Require Import Model.Profile Model.EndToEnd Proofs.EndToEndLink.
+Theorem C01_gregory_counts_terminate_for_every_accepted_file : forall A cfg r text p fuel,
+  term_rule cfg r -> parse_file text = Ok p ->
+  (2 * List.length (cids_upto (p_nCand p)) < Pos.to_nat fuel)%nat ->
+  exists s k, exec (@crashed A) fuel (count_cmd A cfg r) (init_state A cfg (to_count_profile p)) = Some (s, k).
+Proof. exact (fun A cfg => accepted_gregory_terminates A cfg). Qed.
+Print Assumptions C01_gregory_counts_terminate_for_every_accepted_file.
